@@ -320,4 +320,39 @@ harness! {
     }
 }
 
-registry!(callsign_bds08, callsign_bds20, bds09_fields, bds06_fields, bds05_fields, bds62_fields, bds40_fields, bds50_fields, bds60_fields, icao_field);
+// ---- DF20: "a payload is labelled as an airborne position only when its altitude equals the altitude
+// of the surveillance header" — decided on the REAL DF20DataSelector reader (commb.rs), called directly
+// with the header altitude as context.  The other twelve register hypotheses are contract stubs
+// (selstubs.rs: fail / succeed with a sample value, nondeterministically): what is under test here
+// is the selector's glue and the real BDS 0,5 reader.
+with_selector_stubs! {
+    /// EVERY 56-bit MB field x every 16-bit header altitude: bds05 is Some exactly when the type code is
+    /// one the selector offers to BDS 0,5, the payload read as BDS 0,5 is accepted, carries an altitude,
+    /// and that altitude equals the header altitude; the labelled position carries the payload's counts
+    fn df20_gate(s) {
+        let a: [u8; 7] = s.bytes();
+        let ac = s.u16();
+        let mut cur = deku::no_std_io::Cursor::new(&a[..]);
+        let mut reader = Reader::new(&mut cur);
+        let r = rs1090::decode::commb::DF20DataSelector::from_reader_with_ctx(&mut reader, rs1090::decode::AC13Field(ac));
+        vcover!(matches!(&r, Ok(sel) if sel.bds05.is_some()));
+        vcover!(matches!(&r, Ok(sel) if sel.bds05.is_none()));
+        vassert!(r.is_ok(), "the selector itself never fails on 56 bits");
+        if let Ok(sel) = &r {
+            let tc = a[0] >> 3;
+            let zero = a[0] == 0 && a[1] == 0 && a[2] == 0 && a[3] == 0 && a[4] == 0 && a[5] == 0 && a[6] == 0;
+            let expect = if !zero && ((tc >= 9 && tc <= 18) || (tc >= 20 && tc <= 21)) {
+                match d_bds05(&a) { Ok(p) => p.alt.is_some() && p.alt == Some(ac), Err(_) => false }
+            } else { false };
+            if let Some(p) = &sel.bds05 {
+                vassert!(p.alt == Some(ac), "labelled as airborne position only when its altitude equals the header altitude");
+                vassert!(p.lat_cpr == field(&a, 23, 39) && p.lon_cpr == field(&a, 40, 56), "the labelled position carries the payload's counts");
+            }
+            vassert!(sel.bds05.is_some() == expect, "BDS 0,5 label present iff accepted with an altitude equal to the header altitude");
+        }
+        core::mem::forget(r);
+    }
+}
+
+
+registry!(df20_gate, callsign_bds08, callsign_bds20, bds09_fields, bds06_fields, bds05_fields, bds62_fields, bds40_fields, bds50_fields, bds60_fields, icao_field);
